@@ -214,7 +214,7 @@ def handle (_ : Unit) (toks : List Tok) : Unit × String :=
     | [Tok.str "grotrunc", s] => do
         let sys ← sysOf s
         let ps := groPairs 1 sys
-        if groFirstOk ps && ps.all (fun p => groKeepB [] p.2) then
+        if !ps.isEmpty && ps.all (fun p => groKeepB [] p.2) then
           match (ps.map fun p => truncGAtomOf p.1 p.2).mapM encGAtom with
           | none => pure "err scale"
           | some as => pure ("ok " ++ encList as)
